@@ -56,7 +56,13 @@ class C08(Engine):
 
     def prepare(self):
         self.pools.measure(self.pool)
-        self.catalogue = dict(core.N.norm_error.errors)
+
+    @property
+    def catalogue(self):
+        c = getattr(self, "_catalogue", None)
+        if c is None:
+            c = self._catalogue = dict(core.N.norm_error.errors)
+        return c
 
     # ---- scenarios -------------------------------------------------------------------------------------
     def damaged(self, rng, b):
@@ -125,6 +131,14 @@ class C08(Engine):
                 fid = nonfatal[rng.randrange(len(nonfatal))]
                 tree[f"d{j}"] = {P.files[fid]["name"]: "@" + fid}
                 argv.append(f"d{j}/{P.files[fid]['name']}")
+            # the same source reached twice in one run: repeated path, another spelling, a directory plus a file in it
+            r = rng.random()
+            if r < 0.2:
+                argv.append(argv[rng.randrange(len(argv))])
+            elif r < 0.3:
+                argv.append("./" + argv[rng.randrange(len(argv))])
+            elif r < 0.4:
+                argv.insert(rng.randrange(len(argv) + 1), f"d{rng.randrange(k)}")
             yield idx, {"kind": "multi", "fault": "multi_file", "tree": tree, "ops": [{"op": "cli", "argv": ["-f", "json"] + argv}]}
             idx += 1
         # synthetic diagnostic lists through both formatters under permutations
